@@ -42,7 +42,10 @@ Theorem C03_order_independent :
 Proof. exact order_independent_lemma. Qed.
 Print Assumptions C03_order_independent.
 
-(* a reference through a chain of n additive definitions, defined in any order, is the sum; fuel 2n *)
+(* a reference through a chain of n additive definitions, defined in any order, is the sum; fuel 2n.
+   The model has no cut-off: the statement is for every n.  The code has two -- wait() gives up after 1000 links and
+   Python's recursion limit bites earlier for '+ 1' chains written in reverse order -- so for the real code the claim is
+   the property's own bound, n <= 300, which the chain sweep of tools/props/c03.py covers (depths up to 300). *)
 Theorem C03_chain_any_length :
   forall (l : list (string * Z)) (D : defs) n c,
     NoDup (map fst l) -> Permutation D (chain_defs l) ->
@@ -69,7 +72,33 @@ Theorem C03_move_def_partial :
 Proof. exact move_def_ok. Qed.
 Print Assumptions C03_move_def_partial.
 
+(* the composed corollary: moving the definition at position i to position j changes neither the value of any use
+   (same value, or both fail) nor the success/failure of the build -- also when the failing definition is used by
+   nothing: [build_fails] forces every definition at the end, as the code does at link time.
+   (partial in the same sense as above: the model has only definitions and uses) *)
+Theorem C03_move_def_run_partial :
+  forall (ss : list stmt) (i j f f' : nat),
+    NoDup (map fst (defs_of ss)) -> (run_bound ss <= f)%nat -> (run_bound (move_def ss i j) <= f')%nat ->
+    Forall2 res_equiv (lazy_run f' (move_def ss i j)) (lazy_run f ss) /\
+    build_fails f' (move_def ss i j) = build_fails f ss.
+Proof. exact move_def_run. Qed.
+Print Assumptions C03_move_def_run_partial.
+
+Theorem C03_build_outcome_order_free_partial :
+  forall (ss ss' : list stmt) (f f' : nat),
+    NoDup (map fst (defs_of ss)) ->
+    Permutation (defs_of ss) (defs_of ss') -> uses_of ss' = uses_of ss ->
+    (run_bound ss <= f)%nat -> (run_bound ss' <= f')%nat ->
+    build_fails f' ss' = build_fails f ss.
+Proof. exact build_fails_reorder. Qed.
+Print Assumptions C03_build_outcome_order_free_partial.
+
 (* non-vacuity *)
+Example C03_ex_unused_faulty :
+  build_fails 20 [SDef "a" (Sym "zz"); SUse (Const 1)] = true /\
+  build_fails 20 [SDef "a" (Op (Const 1) (Sym "b")); SDef "b" (Const 0)] = true /\
+  build_fails 20 [SDef "a" (Op (Const 1) (Sym "b")); SDef "b" (Const 2)] = false.
+Proof. vm_compute. repeat split; reflexivity. Qed.
 Definition ex_prog : list stmt :=
   [SUse (Sym "c"); SDef "c" (Op (Mul (Sym "b") (Const 3)) (Const 2)); SUse (Add (Sym "c") (Sym "a"));
    SDef "b" (Add (Sym "a") (Const 4)); SDef "a" (Const 6); SUse (Sym "zz"); SUse (Sym "b")].
